@@ -1,23 +1,66 @@
 package event
 
+import (
+	"slices"
+	"sync"
+)
+
 type EventFn[T any] func(data T)
 
 type Unsubscribe func()
 
-type Event[T any] struct {
-	subscribers []EventFn[T]
+type subscriber[T any] struct {
+	id uint64
+	fn EventFn[T]
 }
+
+// The subscriber list lives behind a pointer, so that an Event (and the structs that embed one by
+// value) stays safe to copy, and is guarded by a mutex since listeners subscribe, unsubscribe and
+// are fired from different goroutines.
+type state[T any] struct {
+	mu          sync.Mutex
+	nextID      uint64
+	subscribers []subscriber[T]
+}
+
+type Event[T any] struct {
+	st *state[T]
+}
+
+// Guards the lazy allocation of Event.st, so that the zero Event is ready to use.
+var initMu sync.Mutex
 
 func New[T any]() *Event[T] {
 	return &Event[T]{}
 }
 
+func (e *Event[T]) state() *state[T] {
+	initMu.Lock()
+	defer initMu.Unlock()
+	if e.st == nil {
+		e.st = &state[T]{}
+	}
+	return e.st
+}
+
 // Adds a subscriber to the event.
 func (e *Event[T]) Subscribe(fn EventFn[T]) Unsubscribe {
-	index := len(e.subscribers)
-	e.subscribers = append(e.subscribers, fn)
+	st := e.state()
+
+	st.mu.Lock()
+	id := st.nextID
+	st.nextID++
+	st.subscribers = append(st.subscribers, subscriber[T]{id: id, fn: fn})
+	st.mu.Unlock()
+
+	// Subscribers are identified by an id rather than by their position, which shifts whenever an
+	// earlier subscriber is removed. Unsubscribing twice is a no-op.
 	return func() {
-		e.subscribers = append(e.subscribers[:index], e.subscribers[index+1:]...)
+		st.mu.Lock()
+		defer st.mu.Unlock()
+		st.subscribers = slices.DeleteFunc(slices.Clone(st.subscribers), func(s subscriber[T]) bool {
+			return s.id == id
+		})
 	}
 }
 
@@ -25,7 +68,13 @@ func (e *Event[T]) Subscribe(fn EventFn[T]) Unsubscribe {
 // NOTE: The subscribers are notified in separate goroutines,
 // so be aware of potential race conditions.
 func (e *Event[T]) Fire(data T) {
-	for _, subscriber := range e.subscribers {
-		go subscriber(data)
+	st := e.state()
+
+	st.mu.Lock()
+	subscribers := st.subscribers // never modified in place, see Unsubscribe
+	st.mu.Unlock()
+
+	for _, subscriber := range subscribers {
+		go subscriber.fn(data)
 	}
 }
